@@ -47,6 +47,8 @@ def field_ops(ctx):
 
 
 def run(ctx, rep):
+    from props import accessors as _acc
+    _acc.check(ctx, rep, 'C06', 'R06.acc')
     ops = field_ops(ctx)
     rep.rule('R06.a', 'catalogue map and name index move together; a rename removes the old name before inserting the new one', floor=12, analysis='A6')
     rep.rule('R06.b', 'uniqueness is checked before insertion (name index and id map)', floor=6, analysis='A2+A3')
@@ -236,3 +238,26 @@ def run(ctx, rep):
             rev = has_call_last(it, 'rev')
             rep.ob('R06.f', ctx.user_fn_of(df), 'Vec::remove(index from loop)', rev, c.where(),
                    'indexes are visited in reverse' if rev else 'elements are removed by ascending pre-computed index: after the first removal the remaining indexes are stale (wrong element removed or out-of-bounds panic)')
+
+    # ------------------------------------------------------------ R06.h a group follows its topic's partition count
+    rep.rule('R06.h', "a consumer group's partitions_count is written only by its constructor and by reassign_partitions, from the count it is given, on every path (a group without members follows the topic too)", floor=3, analysis='A9+A2')
+    CG = 'server::streaming::topics::consumer_group::ConsumerGroup'
+    from forms import field_assignments
+    sites = field_assignments(ctx, CG, 'partitions_count')
+    rb = ctx.fn_body(CG + '::reassign_partitions')
+    seen_re = False
+    for fn, b_, bb_, ln, form in sites:
+        if fn == CG + '::reassign_partitions':
+            seen_re = True
+            okf = form == 'partitions_count'
+            rep.ob('R06.h', fn, 'partitions_count = the new count', okf, '%s:%s' % (b_.file, ln), None if okf else 'partitions_count is set to `%s`, not to the count passed in' % form)
+            rets = {r for r in b_.reach if b_.term(r).get('t') == 'return'}
+            skip = rets & b_.reachable(0, avoid_blocks={bb_})
+            rep.ob('R06.h', fn, 'on every path', not skip, '%s:%s' % (b_.file, ln), None if not skip else
+                   'reassign_partitions can return without recording the new partition count (the group then reports and assigns a stale number of partitions)')
+        else:
+            rep.ob('R06.h', fn, 'writer of partitions_count', False, '%s:%s' % (b_.file, ln), 'ConsumerGroup.partitions_count is written outside reassign_partitions')
+    if not seen_re:
+        rep.ob('R06.h', CG + '::reassign_partitions', 'partitions_count = the new count', False, None, 'reassign_partitions no longer records the new partition count')
+    from forms import check_aggregates
+    check_aggregates(ctx, rep, 'R06.h', {CG + '::new': {CG: {'partitions_count': 'partitions_count', 'topic_id': 'topic_id', 'group_id': 'group_id'}}})
